@@ -16,6 +16,9 @@ def pair_levels(y0, y1, step):
         return (), ()
     Y0, Y1 = y0 / step, y1 / step
     lo, hi = (Y0, Y1) if Y1 > Y0 else (Y1, Y0)
+    if math.frexp(step)[0] == 0.5 and abs(lo) < 2.0 ** 50 and abs(hi) < 2.0 ** 50:
+        # the step is a power of two: the division is exact, nothing is ambiguous
+        return tuple(range(math.ceil(lo), math.ceil(hi))), ()
     near = False
     for v in (lo, hi):
         r = abs(v - round(v))
@@ -328,23 +331,40 @@ def walk_curve(connection, kind, reference_level=None, rng=None, cache=None):
         hit(name, n)
 
     # ---- C08 component handling
+    # tie-ambiguous levels may or may not count: the true grouping lies
+    # between "all of them count" (coarsest) and "none counts" (finest)
     ids = sorted(own)
-    level_sets = [set(own[s]) for s in ids]
-    comps = components(level_sets)
-    if comps:
-        hit('components', len(comps))
-        best_levels = comps[0][0]
-        by_count = max(len(m) for _, m in comps)
-        acceptable = [set(ids[i] for i in m) for nl, m in comps if nl == best_levels or len(m) == by_count]
-        if len(comps) > 1:
+    sets_in = [set(own[s]) for s in ids]
+    sets_out = [set(k for k, (_, a_) in own[s].items() if not a_) for s in ids]
+    comps_in = components(sets_in)
+    comps_out = components(sets_out)
+    comps = comps_in
+    if comps_in:
+        hit('components', len(comps_in))
+        if len(comps_in) > 1:
             hit('curves-with-2+-components')
-        any_amb = any(a for s in own for (_, a) in own[s].values())
-        if set(stored) not in acceptable:
-            if any_amb:
-                hit('component-check-skipped-tie-ambiguity')
-            else:
-                findings.append(('C08', kind + '-curve-is-not-the-main-body',
-                                 {'stored': sorted(stored)[:12], 'components_levels_members': [(nl, [ids[i] for i in m][:12]) for nl, m in comps[:4]]}))
+        S = set(stored)
+        problems = []
+        if not any(S <= set(ids[i] for i in m) for _, m in comps_in):
+            problems.append('the stored intervals do not all share levels through a chain of overlaps')
+        for _, m in comps_out:
+            members = set(ids[i] for i in m)
+            if members & S and not members <= S:
+                problems.append('an interval connected to the stored ones is left out: {}'.format(sorted(members - S)[:5]))
+                break
+        if not problems:
+            n_hi = len(set().union(*[sets_in[ids.index(s)] for s in S if s in own])) if S & set(ids) else 0
+            for nl, m in comps_out:
+                members = set(ids[i] for i in m)
+                if members & S:
+                    continue
+                if nl > n_hi and len(members) > len(S):
+                    problems.append('a larger group exists: {} levels / {} intervals against {} / {}'.format(nl, len(members), n_hi, len(S)))
+                    break
+        if problems:
+            findings.append(('C08', kind + '-curve-is-not-the-main-body',
+                             {'problems': problems, 'stored': sorted(stored)[:12],
+                              'components_levels_members': [(nl, [ids[i] for i in m][:12]) for nl, m in comps_in[:4]]}))
         else:
             hit('main-body-checked')
 
